@@ -366,10 +366,26 @@ pub fn run_case(case: &Case) -> CaseResult {
             CaseResult { violations, outcome, fired }
         }
         Case::Sample { spec, point, ed, tol, meta, faults, debug } => {
-            hashkeys::reset(0x5a);
-            let s = match sampler::build(spec) {
-                Built::Ok(s) => s,
-                _ => return CaseResult { violations: vec![], outcome: "unbuildable", fired: vec![] },
+            // consecutive cases share their graph: keep the last sampler (the harness's
+            // own cache; the library object is built exactly as before)
+            thread_local! {
+                static LAST: std::cell::RefCell<Option<(u64, std::sync::Arc<dyn Sampler>)>> = const { std::cell::RefCell::new(None) };
+            }
+            let key = hash_str(&serde_json::to_string(spec).unwrap());
+            let cached = LAST.with(|c| c.borrow().as_ref().filter(|(k, _)| *k == key).map(|(_, s)| s.clone()));
+            let s: std::sync::Arc<dyn Sampler> = match cached {
+                Some(s) => s,
+                None => {
+                    hashkeys::reset(0x5a);
+                    match sampler::build(spec) {
+                        Built::Ok(s) => {
+                            let a: std::sync::Arc<dyn Sampler> = std::sync::Arc::from(s);
+                            LAST.with(|c| *c.borrow_mut() = Some((key, a.clone())));
+                            a
+                        }
+                        _ => return CaseResult { violations: vec![], outcome: "unbuildable", fired: vec![] },
+                    }
+                }
             };
             let (o, st) = sample_with_dbg(&*s, point, ed, *tol, *meta, faults, false, *debug);
             let (violations, outcome) = judge_sample(&o, spec, *tol, faults.is_empty());
@@ -815,7 +831,18 @@ impl C16 {
         } else {
             // sample leg
             hashkeys::reset(rng.next());
-            let (spec, s) = crate::c17::pick_graph(&mut rng, if thorough { 7 } else { 6 }, if thorough { 4 } else { 3 });
+            // one sample-leg run in five on a graph with 6-9 loops (L matrix up to 9x9,
+            // often block diagonal)
+            let many = rng.chance(1, 5);
+            let (spec, s) = if many {
+                let g = workload::many_loop_graph(&mut rng);
+                match sampler::build(&g) {
+                    Built::Ok(s) => (g, std::sync::Arc::from(s) as std::sync::Arc<dyn Sampler>),
+                    _ => crate::c17::pick_graph(&mut rng, 6, 3),
+                }
+            } else {
+                crate::c17::pick_graph(&mut rng, if thorough { 7 } else { 6 }, if thorough { 4 } else { 3 })
+            };
             let dim = s.dimension();
             let npoints = if thorough { 12 } else { 6 };
             let mut summary = Vec::new();
@@ -854,6 +881,42 @@ impl C16 {
                 let first_det = if nd.len() == tr_t.len() { 0 } else { nd.len() as u64 };
                 let nf = if thorough { 60 } else { 25 };
                 let arith: Vec<u64> = (0..first_det).filter(|&i| kind::is_arith(tr_t[i as usize].kind)).collect();
+                // one or two perturbations before the detector, then a tolerance BELOW the
+                // exactly recomputed distance of that very (faulted) result: the test must
+                // refuse.  Catches a test that looks at parts of the residual separately.
+                if !arith.is_empty() {
+                    for _ in 0..(nf / 2) {
+                        let mut fs: Vec<Fault> = Vec::new();
+                        for _ in 0..rng.range(1, 2) {
+                            let k = arith[rng.below(arith.len() as u64) as usize];
+                            if !fs.iter().any(|f| f.at == k) {
+                                fs.push(Fault { at: k, kind: *rng.pick(&[FaultKind::Perturb(12), FaultKind::Perturb(24), FaultKind::Perturb(4)]) });
+                            }
+                        }
+                        fs.sort_by_key(|f| f.at);
+                        let (o, _) = sample_with(&*s, &point, &ed, None, true, &fs, false);
+                        if let Outcome::Sample { meta: Some(m), .. } = &o {
+                            if let Some((l, dec, n)) = parse_meta(m, spec.d) {
+                                if let Some(dist) = exact::l21_distance_exact(&dec.inverse, &l, n) {
+                                    let slack = 8.0 * n as f64 * 2f64.powi(-53) * exact::abs_product_norm(&dec.inverse, &l, n);
+                                    if dist.is_finite() && dist > 16.0 * slack {
+                                        for frac in [0.9, 0.7] {
+                                            cases.push(Case::Sample {
+                                                spec: spec.clone(),
+                                                point: point.clone(),
+                                                ed: ed.clone(),
+                                                tol: Some((frac * dist).to_bits()),
+                                                meta: true,
+                                                faults: fs.clone(),
+                                                debug: false,
+                                            });
+                                        }
+                                    }
+                                }
+                            }
+                        }
+                    }
+                }
                 if !arith.is_empty() {
                     for _ in 0..nf {
                         let k = arith[rng.below(arith.len() as u64) as usize];
